@@ -111,6 +111,22 @@ CHECKS = {
    note="Trusted: Coq kernel + vm_compute; Bignums primitives for the executed instance; model Split.v tied by sampled correspondence; "
         "harness. Follows the fixed code (F15). The 'defaults are handed over' half is checked in the C05/C06 parameter streams.",
    technique="Coq proof (loop invariant, all graphs and orders) + vm_compute correspondence of partitions and part matrices", design="§5 C12"),
+ "C13": dict(
+   text="Proof: props/C13.v. For every matrix, size and number of modes the expanded matrix's coefficient between (p, mode i) and "
+        "(q, mode i') is the single-mode coefficient when i = i' and zero otherwise (expand_coeff), the index layout i*N+n is injective "
+        "and onto 0..np*N-1; the waves around an expanded block satisfy its equations exactly when every mode's waves satisfy the "
+        "single-mode block's equations: np independent copies (expand_independent); connect_all links exactly the common modes, like "
+        "with like (connect_all_pairs); the base-name / mode / pin queries return exactly those of the pins the object has. Closed under "
+        "the global context. The tie expands every library block and random models to 1-5 modes in random order, with scalar parameters "
+        "and sweeps, directly / through a solver / after an earlier solve; wires circuits of expanded blocks (equal, permuted, partially "
+        "overlapping mode lists; sub-solvers exposing Pin(base, mode)) through connect_all and compares with the model's solve of the "
+        "multi-mode netlist AND with independent per-mode solves and zero cross-mode coefficients; runs the queries on models, results, "
+        "structures and placed sub-solvers.",
+   note="Trusted: Coq kernel + vm_compute; Bignums primitives for the executed instance; model Modes.v tied by sampled correspondence; "
+        "harness. The circuit-level statement (a whole circuit of expanded blocks = independent copies) is proved per block and tied for "
+        "circuits by the per-mode comparison in Coq, not proved for arbitrary circuits. Follows the fixed code (F17, F18). Expansion of an "
+        "already solved model raises and is outside the model.",
+   technique="Coq proof (index/block-diagonal algebra, wave-level independence per block, list lemmas) + vm_compute correspondence", design="§5 C13"),
  "C19": dict(
    text="Proof: props/C19.v, for all hierarchies (induction over the nested tree): after prune no dead branch — empty model, or solver "
         "containing (recursively) nothing else — is left at any level (prune_no_dead); a hierarchy without dead branches is returned "
